@@ -56,6 +56,8 @@ def run(ctx, b, drv):
         for i in range(ngen):
             kind, code = gens.text_case(ctx.seed, 'c12-%s' % v, i, ['valid', 'mutate', 'valid'])
             srcs.append(('gen:%s:%d' % (kind, i), code))
+        for i in range(ngen):
+            srcs.append(('derived:%d' % i, gens.derived(gens.rng(ctx.seed, 'derived-%s-%s' % ('C12', v), i), v)))
         texts = [s for _, s in srcs]
         okv = refpy.run_ref('ref_compile.py', v, texts)
         ok38 = refpy.run_ref('ref_compile.py', '3.8', texts)
